@@ -143,7 +143,7 @@ Definition hist_ptr (blk : block) (bh : nat) : Prop := nth_error blk L_hist = So
    command string, ...), and no struct's log pointer points to a struct *)
 Definition sep (res : list nat) (l : list (option hent)) : Prop :=
   NoDup (hblocks l) /\ (forall b, In b (hblocks l) -> ~ In b res) /\
-  (forall bl blk lb bh, In (Some (bl, blk, lb)) l -> hist_ptr blk bh -> ~ In bh (hblocks l)).
+  (forall bl blk lb bh, In (Some (bl, blk, lb)) l -> hist_ptr blk bh -> ~ In bh (hblocks l) /\ ~ In bh res).
 
 Lemma hblocks_in l bl blk lb : In (Some (bl, blk, lb)) l -> In bl (hblocks l).
 Proof.
@@ -155,7 +155,7 @@ Lemma sep_tail res x l : sep res (x :: l) -> sep res l.
 Proof.
   intros (Hn & Hr & Hh). destruct x as [[[bl blk] lb]|]; cbn [hblocks] in *.
   - split; [inversion Hn; assumption|]. split; [intros b Hb; apply Hr; right; exact Hb|].
-    intros b k x bh Hin Hp Hc. apply (Hh b k x bh); [right; exact Hin|exact Hp|right; exact Hc].
+    intros b k x bh Hin Hp. destruct (Hh b k x bh (or_intror Hin) Hp) as [H1 H2]. split; [intro Hc; apply H1; right; exact Hc|exact H2].
   - split; [exact Hn|]. split; [exact Hr|]. intros b k x bh Hin Hp. apply (Hh b k x bh); [right; exact Hin|exact Hp].
 Qed.
 (* a bump of one struct keeps what the other slots see *)
@@ -176,7 +176,7 @@ Proof.
   assert (Hall : forall h, In h l -> forall b k x, h = Some (b, k, x) -> b <> bl /\ forall bh, hist_ptr k bh -> bh <> bl).
   { intros h Hin b k x ->. split.
     - intro E. subst b. apply Hnin. apply (hblocks_in l bl k x Hin).
-    - intros bh Hp E. subst bh. apply (Hh b k x bl); [right; exact Hin|exact Hp|left; reflexivity]. }
+    - intros bh Hp E. subst bh. destruct (Hh b k x bl (or_intror Hin) Hp) as [H1 _]. apply H1. left; reflexivity. }
   clear Hn Hr Hh Hnin Hn'. induction H as [|cs h ts l Hx Hrest IH]; constructor.
   - apply slot_heap_frame; [exact Hx|exact Hlt|apply Hall; left; reflexivity].
   - apply IH. intros h' Hin. apply Hall. right. exact Hin.
@@ -270,7 +270,7 @@ Section Quit.
         * rewrite (tr_bufs_modified_clean ext m t i bl blk lb (VPtr G_bm 0) d fuel Hm Ht ltac:(lia) Hlb R Hints ltac:(lia) Hfl).
           xstep. fold m1. rewrite (strchr0 m1 cb cmd 97 97 eq_refl Hcmd1 Ncmd) by lia. rewrite Ha. xstep.
           rewrite chk_I32 by lia. xstep. replace (Z.of_nat i + 1) with (Z.of_nat (S i)) by lia.
-          assert (Hh1 : Forall2 (slot_heap B m1) ts' l) by (apply (heap_tail_frame B res m ts' l bl blk lb Hrest); [repeat split; assumption|exact Hlt]).
+          assert (Hh1 : Forall2 (slot_heap B m1) ts' l) by (apply (heap_tail_frame B res m ts' l bl blk lb Hrest); [exact (conj Hn (conj Hr Hh0))|exact Hlt]).
           specialize (Hnext m1 l5 l6 Hh1 Hm1 Haw1 Hcmd1). destruct (cq l (S i) m1) as [m9 [j|]]; [intros u1 m2 u2 m' Hshow Hsw; apply (Hnext u1 m2 u2 m' Hshow Hsw)|exact Hnext].
       + (* an empty slot *)
         rewrite <- Hcs in Hx.
@@ -453,7 +453,10 @@ Proof.
   repeat split; try tauto; lia.
 Qed.
 Lemma sep_mono res res' l : sep res l -> (forall b, In b res' -> In b res) -> sep res' l.
-Proof. intros (Hn & Hr & Hh) Hi. split; [exact Hn|]. split; [|exact Hh]. intros b Hb Hin. apply (Hr b Hb). apply Hi. exact Hin. Qed.
+Proof.
+  intros (Hn & Hr & Hh) Hi. split; [exact Hn|]. split; [intros b Hb Hin; apply (Hr b Hb); apply Hi; exact Hin|].
+  intros bl blk lb bh Hin Hp. destruct (Hh bl blk lb bh Hin Hp) as [H1 H2]. split; [exact H1|]. intro H. apply H2, Hi, H.
+Qed.
 Lemma slot_heap_mono B B' m cs h : B <= B' -> slot_heap B m cs h -> slot_heap B' m cs h.
 Proof. intros HB H. destruct h as [[[bl blk] lb]|]; [|exact H]. destruct H as (Hc & R & Hi & Hu). split; [exact Hc|split; [exact R|split; [exact Hi|lia]]]. Qed.
 Lemma cq_frame res B : forall l ts i m b, Forall2 (slot_heap B m) ts l -> sep res l -> ~ In b (hblocks l) ->
@@ -497,8 +500,8 @@ Proof.
       apply (lbuf_rep_frame _ _ bl _ _ R1).
       * apply (cq_frame res B l ts' (S i) _ bl Hrest1); [exact Hsep'|exact Hnin].
       * intros bh hblk Hp Hb. rewrite (cq_frame res B l ts' (S i) _ bh Hrest1); [exact Hb|exact Hsep'|].
-        intro Hin. apply (Hh0 bl blk lb bh); [left; reflexivity| |right; exact Hin].
-        apply (hist_ptr_bumped blk lb bh); [destruct R; assumption|exact Hp].
+        intro Hin. assert (Hp0 : hist_ptr blk bh) by (apply (hist_ptr_bumped blk lb bh); [destruct R; assumption|exact Hp]).
+        destruct (Hh0 bl blk lb bh (or_introl eq_refl) Hp0) as [H1 _]. apply H1. right; exact Hin.
   - constructor; [exact Hx|]. apply IH; [exact Hrest|exact (sep_tail _ _ _ Hsep)].
 Qed.
 
@@ -569,3 +572,252 @@ Section Model.
     - split; [reflexivity|]. apply heap_tab_cq. exact H.
   Qed.
 End Model.
+
+(* ------------------------------------------------------------------ the refusing quit, composed with bufs_switch: the rotated table in memory *)
+Lemma nth_error_upd_ne {A} (l : list A) n k x : k <> n -> (k < length l)%nat -> nth_error (upd l n x) k = nth_error l k.
+Proof.
+  intros Hne Hk. destruct (lt_dec n (length l)) as [L|L]; [apply nth_error_upd_other; assumption|].
+  unfold upd. rewrite firstn_all2, skipn_all2 by lia. apply nth_error_app1. exact Hk.
+Qed.
+Lemma upd_length_ge {A} (l : list A) n x : (length l <= length (upd l n x))%nat.
+Proof.
+  destruct (lt_dec n (length l)) as [L|L]; [rewrite upd_length by exact L; lia|].
+  unfold upd. rewrite firstn_all2, skipn_all2 by lia. rewrite app_length. lia.
+Qed.
+Ltac len_ge := repeat match goal with |- (_ < length (upd ?l _ _))%nat => apply (Nat.lt_le_trans _ (length l)); [|apply upd_length_ge] end.
+Lemma set_globs_ne m r o tp l td b : (b < length m)%nat -> ~ In b [G_xrow; G_xoff; G_xtop; G_xleft; G_xtd] ->
+  nth_error (set_globs m r o tp l td) b = nth_error m b.
+Proof.
+  intros Hb Hn. unfold set_globs.
+  repeat (rewrite nth_error_upd_ne; [|intro E; apply Hn; subst b; cbn; tauto|len_ge; exact Hb]). reflexivity.
+Qed.
+Lemma first_idx_lt {A} (f : A -> bool) l j : first_idx f l = Some j -> (j < length l)%nat.
+Proof.
+  revert j; induction l as [|x l IH]; intros j H; [discriminate|]. cbn [first_idx] in H. destruct (f x); [injection H as <-; cbn; lia|].
+  destruct (first_idx f l) as [n|]; [|discriminate]. injection H as <-. specialize (IH n eq_refl). cbn [length]. lia.
+Qed.
+Lemma cq_hp_in l e : In (Some e) (cq_hp l) ->
+  In (Some e) l \/ exists bl blk lb, In (Some (bl, blk, lb)) l /\ e = (bl, bumped blk lb, UndoDefs.bump lb).
+Proof.
+  induction l as [|h r IH]; intro H; [destruct H|]. cbn [cq_hp] in H.
+  assert (Hh : hbump h = Some e -> exists bl blk lb, h = Some (bl, blk, lb) /\ e = (bl, bumped blk lb, UndoDefs.bump lb)).
+  { destruct h as [[[bl blk] lb]|]; cbn [hbump]; [|discriminate]. intro E. injection E as <-. eauto. }
+  destruct (hflag h).
+  - destruct H as [H|H]; [right; destruct (Hh H) as (bl & blk & lb & -> & ->); exists bl, blk, lb; split; [left; reflexivity|reflexivity]|left; right; exact H].
+  - destruct H as [H|H]; [right; destruct (Hh H) as (bl & blk & lb & -> & ->); exists bl, blk, lb; split; [left; reflexivity|reflexivity]|].
+    destruct (IH H) as [H1|(bl & blk & lb & H1 & ->)]; [left; right; exact H1|right; exists bl, blk, lb; split; [right; exact H1|reflexivity]].
+Qed.
+Lemma heap_in_len B m : forall ts l bl blk lb, Forall2 (slot_heap B m) ts l -> In (Some (bl, blk, lb)) l -> length blk = LBUF_CELLS.
+Proof.
+  intros ts l bl blk lb H. induction H as [|cs h ts l Hx Hr IH]; intro Hin; [destruct Hin|].
+  destruct Hin as [->|Hin]; [destruct Hx as (_ & R & _); destruct R; assumption|apply IH; exact Hin].
+Qed.
+Lemma sep_cq_hp res B m ts l : Forall2 (slot_heap B m) ts l -> sep res l -> sep res (cq_hp l).
+Proof.
+  intros Hh (Hn & Hr & Hs). rewrite <- (hblocks_cq_hp l) in Hn, Hr. split; [exact Hn|]. split; [exact Hr|].
+  intros bl blk lb bh Hin Hp. rewrite hblocks_cq_hp.
+  destruct (cq_hp_in l _ Hin) as [H1|(bl0 & blk0 & lb0 & H1 & E)]; [apply (Hs bl blk lb bh H1 Hp)|].
+  injection E as -> -> ->. apply (Hs bl0 blk0 lb0 bh H1). apply (hist_ptr_bumped blk0 lb0 bh); [exact (heap_in_len B m ts l bl0 blk0 lb0 Hh H1)|exact Hp].
+Qed.
+Lemma rep_transfer m m' bl blk lb : lbuf_rep m bl blk lb -> nth_error m' bl = nth_error m bl ->
+  (forall bh, hist_ptr blk bh -> (bh < length m)%nat -> bh <> bl -> nth_error m' bh = nth_error m bh) -> lbuf_rep m' bl blk lb.
+Proof.
+  intros [Rb Rl Ru Rsz Rn Rhu Rz Rla Rh] Hbl Hbh. constructor; try assumption; [rewrite Hbl; exact Rb|].
+  intro Hne. destruct (Rh Hne) as (bh & hblk & Hd & Hp & Hhb & Hcells). exists bh, hblk.
+  split; [exact Hd|]. split; [exact Hp|]. split; [|exact Hcells].
+  rewrite (Hbh bh Hp); [exact Hhb|apply nth_error_Some; congruence|exact Hd].
+Qed.
+Lemma m5_frame (mA : mem) n cells T r' o' tp' l' td' b : length mA = S n -> (b < n)%nat ->
+  ~ In b [G_bufs; G_xrow; G_xoff; G_xtop; G_xleft; G_xtd] ->
+  nth_error (set_globs (upd (upd mA n cells) G_bufs T) r' o' tp' l' td') b = nth_error mA b.
+Proof.
+  intros Hl Hb Hn. rewrite set_globs_ne; [|len_ge; lia|intro E; apply Hn; right; exact E].
+  rewrite nth_error_upd_ne; [|intro E; apply Hn; left; congruence|len_ge; lia].
+  apply nth_error_upd_ne; lia.
+Qed.
+Lemma m5_tab (mA : mem) n cells T r' o' tp' l' td' : length mA = S n -> (G_bufs < n)%nat ->
+  nth_error (set_globs (upd (upd mA n cells) G_bufs T) r' o' tp' l' td') G_bufs = Some T.
+Proof.
+  intros Hl Hb. rewrite set_globs_ne; [|len_ge; lia|cbn; intuition discriminate].
+  apply nth_error_upd_same. rewrite upd_length by lia. lia.
+Qed.
+Lemma Forall2_impl_in {A B} (P Q : A -> B -> Prop) a b : Forall2 P a b -> (forall x y, In y b -> P x y -> Q x y) -> Forall2 Q a b.
+Proof. induction 1 as [|x y a b Hxy Hr IH]; intro H; constructor; [apply H; [left; reflexivity|exact Hxy]|apply IH; intros x' y' Hin; apply H; right; exact Hin]. Qed.
+
+Definition RES (cb : nat) : list nat := [G_bufs; G_xaw; G_xquit; cb; G_xrow; G_xoff; G_xtop; G_xleft; G_xtd].
+
+(* q / wq / x without `!` on a table with a buffer reported modified, with an ex_show that leaves this memory alone and a reg_put that
+   answers: ec_quit returns 0; at its last call (reg_put, from bufs_load) the memory m5 holds the table rotated to the first
+   modified slot j -- BufsDefs.switch of the table with the cursor saved into slot 0 --, every struct represents the entry of
+   switch (hbump0 (cq_hp hp)) j (bumped up to slot j, slot 0 once more, rotated), and xquit is untouched *)
+Theorem tr_ec_quit_rotates ext m mw t hp cb cmd loc arg txt q0 B r o tp l td m1 j d fuel :
+  B <= 2147483646 -> str_at m cb cmd -> nonul cmd -> ptr_val arg -> write_part ext cb cmd arg m 0 mw ->
+  tab_at mw t -> tab_ok t -> heap_at B mw t hp -> sep (RES cb) hp ->
+  cell_at mw G_xaw 0 -> cell_at mw G_xquit q0 -> str_at mw cb cmd ->
+  globs_at mw r o tp l td -> int_ok r -> int_ok o -> int_ok tp -> int_ok l -> int_ok td ->
+  Forall slot_ints t -> Forall (fun s => ptr_val (cs_path s)) t ->
+  find_byte 97 cmd = None -> find_byte 33 cmd = None -> (16 < fuel)%nat ->
+  (forall mm, ext X_ex_show [VPtr G_bm 0] mm = Ok (VUndef, mm)) ->
+  (forall a mm, exists u mm', ext X_reg_put [VInt 37; a; VInt 0] mm = Ok (u, mm')) ->
+  cq hp 0 mw = (m1, Some j) ->
+  let t2 := switch (save0 t r o tp l td) j in
+  let hp2 := switch (hbump0 (cq_hp hp)) j in
+  exists m5 u m',
+    callx ext cprog fuel (S (S (S (S d)))) F_ec_quit [loc; VPtr cb 0; arg; txt] m = Ok (VInt 0, m') /\
+    ext X_reg_put [VInt 37; path_arg (cs_path (nths t2 0)); VInt 0] m5 = Ok (u, m') /\
+    tab_at m5 t2 /\ heap_at (B + 2) m5 t2 hp2 /\ cell_at m5 G_xquit q0.
+Proof.
+  intros HB Hcmd Ncmd Harg Hw Hm Ht Hh Hsep Haw Hq Hcmdw Hg Ir Io Itp Il Itd Hints Hpaths Ha Hb Hf Hshow Hreg Hcq t2 hp2.
+  pose proof Ht as [Hl Hs].
+  assert (Hsmall : sep [G_bufs; G_xaw; G_xquit; cb] hp) by (apply (sep_mono (RES cb)); [exact Hsep|unfold RES; cbn; tauto]).
+  pose proof (tr_ec_quit_scan ext m mw t hp cb cmd loc arg txt q0 B d fuel ltac:(lia) Hcmd Ncmd Harg Hw Hm Ht Hh Hsmall Haw Hq Hcmdw Ha Hb Hf) as Hscan.
+  rewrite Hcq in Hscan.
+  (* the memory and the heap after the scan *)
+  pose proof (cq_heap (RES cb) B ltac:(lia) hp t 0 mw Hh Hsep) as Hh1. rewrite Hcq in Hh1. cbn [fst] in Hh1.
+  pose proof (sep_cq_hp (RES cb) B mw t hp Hh Hsep) as Hsep1.
+  assert (Hfr : forall b, In b (RES cb) -> nth_error m1 b = nth_error mw b).
+  { intros b Hin. pose proof (cq_frame (RES cb) B hp t 0 mw b Hh Hsep) as H. rewrite Hcq in H. apply H.
+    destruct Hsep as (_ & Hr & _). intro Hb'. apply (Hr b Hb' Hin). }
+  assert (Hlen : length m1 = length mw) by (pose proof (cq_length (RES cb) B hp t 0 mw Hh Hsep) as H; rewrite Hcq in H; exact H).
+  assert (Hm1 : tab_at m1 t) by (unfold tab_at; rewrite Hfr by (unfold RES; cbn; tauto); exact Hm).
+  assert (Hq1 : cell_at m1 G_xquit q0) by (unfold cell_at; rewrite Hfr by (unfold RES; cbn; tauto); exact Hq).
+  assert (Hg1 : globs_at m1 r o tp l td) by (destruct Hg as [G1 G2 G3 G4 G5]; constructor; unfold cell_at; rewrite Hfr by (unfold RES; cbn; tauto); assumption).
+  assert (Hlhp : length hp = 16%nat) by (rewrite <- (Forall2_len _ _ _ Hh); exact Hl).
+  assert (Hj : (j < 16)%nat).
+  { pose proof (cq_snd hp 0 mw) as H. rewrite Hcq in H. cbn [snd] in H. unfold cq_idx in H.
+    destruct (first_idx hflag hp) as [n|] eqn:E; [|discriminate]. injection H as ->. rewrite <- Hlhp. apply (first_idx_lt _ _ _ E). }
+  set (t1 := save0 t r o tp l td) in *. set (sx := nths t1 j).
+  assert (Ht1 : tab_ok t1) by (apply tab_ok_save0; exact Ht).
+  assert (Hl1 : length t1 = 16%nat) by (destruct Ht1; assumption).
+  assert (Isx : slot_ints sx).
+  { pose proof (save0_ints t r o tp l td Hints Ir Io Itp Il) as H. fold t1 in H. rewrite Forall_forall in H. apply H. apply nth_In. lia. }
+  assert (Psx : ptr_val (cs_path sx)).
+  { rewrite Forall_forall in Hpaths.
+    assert (Hin : In (cs_path sx) (map cs_path t)) by (rewrite <- (save0_paths t r o tp l td); apply in_map; apply nth_In; fold t1; lia).
+    apply in_map_iff in Hin. destruct Hin as [c [<- Hc]]. apply Hpaths. exact Hc. }
+  assert (Hsx0 : nths t2 0 = sx) by (apply switch_nth0; lia).
+  assert (Hgl : forall g, In g [G_bufs; G_xrow; G_xoff; G_xtop; G_xleft; G_xtd; G_xquit] -> (g < length m1)%nat).
+  { intros g Hin. apply nth_error_Some. destruct Hg1 as [G1 G2 G3 G4 G5]. unfold cell_at, tab_at in *.
+    destruct Hin as [<-|[<-|[<-|[<-|[<-|[<-|[<-|[]]]]]]]]; congruence. }
+  set (n := length m1).
+  (* everything that follows depends on the memory after the bump step of bufs_switch only through these facts *)
+  assert (Hfin : forall mA h0' u m', length mA = S n ->
+     (forall b, (b < n)%nat -> b <> G_bufs -> (forall bl blk lb, h0' = Some (bl, blk, lb) -> b <> bl) -> nth_error mA b = nth_error m1 b) ->
+     (forall bl blk lb, h0' = Some (bl, blk, lb) -> nth_error mA bl = Some blk /\ lbuf_rep (upd m1 bl blk) bl blk lb /\ lbuf_ints lb /\ useq lb < B + 2 /\ cs_lb (nths t 0) = VPtr bl 0) ->
+     (h0' = None -> cs_lb (nths t 0) = VInt 0) ->
+     hbump0 (cq_hp hp) = h0' :: tl (cq_hp hp) ->
+     let m5 := set_globs (upd (upd mA n (slot_cells sx)) G_bufs (tab_cells t2)) (cs_row sx) (cs_off sx) (cs_top sx) (cs_left sx) (cs_td sx) in
+     ext X_reg_put [VInt 37; path_arg (cs_path sx); VInt 0] m5 = Ok (u, m') ->
+     callx ext cprog fuel (S (S (S d))) F_bufs_switch [VInt (Z.of_nat j)] m1 = Ok (VUndef, m') ->
+     exists m5 u m',
+       callx ext cprog fuel (S (S (S (S d)))) F_ec_quit [loc; VPtr cb 0; arg; txt] m = Ok (VInt 0, m') /\
+       ext X_reg_put [VInt 37; path_arg (cs_path (nths t2 0)); VInt 0] m5 = Ok (u, m') /\
+       tab_at m5 t2 /\ heap_at (B + 2) m5 t2 hp2 /\ cell_at m5 G_xquit q0).
+  { intros mA h0' u m' HlA HfrA Hhead Hnull Hhb m5 Hput Hsw. exists m5, u, m'.
+    split; [exact (Hscan VUndef m1 VUndef m' (Hshow m1) Hsw)|]. split; [rewrite Hsx0; exact Hput|].
+    assert (F5 : forall b, (b < n)%nat -> ~ In b [G_bufs; G_xrow; G_xoff; G_xtop; G_xleft; G_xtd] -> nth_error m5 b = nth_error mA b)
+      by (intros b Hb' Hn'; apply m5_frame; assumption).
+    split; [unfold tab_at; apply m5_tab; [exact HlA|apply Hgl; cbn; tauto]|].
+    split.
+    2:{ unfold cell_at. rewrite F5; [|apply Hgl; cbn; tauto|cbn; intuition discriminate].
+        rewrite HfrA; [exact Hq1|apply Hgl; cbn; tauto|discriminate|].
+        intros bl blk lb E. destruct (Hhead bl blk lb E) as (_ & _ & _ & _ & Hc0). intro E2. subst bl.
+        (* G_xquit is reserved: it is not a struct *)
+        destruct Hsep1 as (_ & Hr & _). apply (Hr G_xquit); [|unfold RES; cbn; tauto].
+        destruct (cq_hp hp) as [|h0 hr] eqn:Ehp; [discriminate Hhb|]. cbn [hbump0 tl] in Hhb. injection Hhb as Hhb. subst h0'.
+        destruct h0 as [[[b0 k0] x0]|]; cbn [hbump] in E; [|discriminate]. injection E as <- _ _. left; reflexivity. }
+    (* the heap *)
+    unfold heap_at, hp2, t2. apply Forall2_switch. rewrite Hhb.
+    destruct (cq_hp hp) as [|h0 hr] eqn:Ehp; [discriminate Hhb|]. cbn [hbump0 tl] in Hhb |- *. injection Hhb as Hhb. subst h0'.
+    destruct t as [|c0 trest]; [discriminate Hl|]. inversion Hh1 as [|? ? ? ? Hx0 Hrest]; subst x y l0 l'.
+    destruct Hsep1 as (Hn1 & Hr1 & Hs1).
+    assert (Hres : forall b, In b [G_bufs; G_xrow; G_xoff; G_xtop; G_xleft; G_xtd] -> In b (RES cb)) by (unfold RES; cbn; tauto).
+    unfold t1. cbn [save0]. constructor.
+    - (* slot 0 *)
+      destruct h0 as [[[bl0 blk0] lb0]|]; cbn [hbump slot_heap].
+      + destruct (Hhead bl0 (bumped blk0 lb0) (UndoDefs.bump lb0) eq_refl) as (HA & RA & IA & UA & Hc0).
+        split; [exact Hc0|]. split; [|split; assumption].
+        destruct Hx0 as (_ & R0 & _). pose proof (rep_lt _ _ _ _ R0) as Hlt0.
+        assert (Hin0 : In bl0 (hblocks (Some (bl0, blk0, lb0) :: hr))) by (left; reflexivity).
+        apply (rep_transfer (upd m1 bl0 (bumped blk0 lb0)) m5 bl0 _ _ RA).
+        * rewrite F5; [rewrite HA; symmetry; apply mem_upd_same; exact Hlt0|exact Hlt0|intro Hin; apply (Hr1 bl0 Hin0), Hres, Hin].
+        * intros bh Hp Hbh Hne. rewrite upd_length in Hbh by exact Hlt0.
+          assert (Hp0 : hist_ptr blk0 bh) by (apply (hist_ptr_bumped blk0 lb0 bh); [destruct R0; assumption|exact Hp]).
+          destruct (Hs1 bl0 blk0 lb0 bh (or_introl eq_refl) Hp0) as [Hb1 Hb2].
+          rewrite F5; [|exact Hbh|intro Hin; apply Hb2, Hres, Hin].
+          rewrite HfrA; [symmetry; apply mem_upd_other; assumption|exact Hbh|intro E; apply Hb2; subst bh; unfold RES; cbn; tauto|].
+          intros bl blk lb E. injection E as <- _ _. exact Hne.
+      + cbn [slot_heap] in Hx0. exact Hx0.
+    - (* the other slots: their structs are where they were *)
+      assert (Hall : forall h, In h hr -> forall b k x, h = Some (b, k, x) ->
+                (forall b', hbump h0 = Some b' -> b <> fst (fst b')) /\ ~ In b (RES cb) /\ forall bh, hist_ptr k bh -> ~ In bh (hblocks (h0 :: hr)) /\ ~ In bh (RES cb)).
+      { intros h Hin b k x ->. split; [|split].
+        - intros [[b0 k0] x0] E. cbn [fst]. destruct h0 as [[[bl0 blk0] lb0]|]; cbn [hbump] in E; [|discriminate].
+          injection E as <- _ _. cbn [hblocks] in Hn1. inversion Hn1 as [|? ? Hnin _]; subst.
+          intro E. subst b. apply Hnin. apply (hblocks_in hr bl0 k x Hin).
+        - apply Hr1. destruct h0 as [[[? ?] ?]|]; cbn [hblocks]; [right|]; apply (hblocks_in hr b k x Hin).
+        - intros bh Hp. apply (Hs1 b k x bh); [right; exact Hin|exact Hp]. }
+      apply (Forall2_impl_in _ _ _ _ Hrest). intros cs h Hinh Hx.
+      + destruct h as [[[b k] x]|]; [|exact Hx]. destruct Hx as (Hc & R & Hi & Hu).
+        destruct (Hall _ Hinh b k x eq_refl) as (Hd0 & Hdr & Hdh). pose proof (rep_lt _ _ _ _ R) as Hltb.
+        assert (Hb5 : forall b', (b' < n)%nat -> ~ In b' (RES cb) -> (forall b'' , hbump h0 = Some b'' -> b' <> fst (fst b'')) -> nth_error m5 b' = nth_error m1 b').
+        { intros b' Hb' Hnr Hn0. rewrite F5; [|exact Hb'|intro Hin; apply Hnr, Hres, Hin].
+          apply HfrA; [exact Hb'|intro E; apply Hnr; subst b'; unfold RES; cbn; tauto|]. intros bl blk lb E. apply (Hn0 _ E). }
+        split; [exact Hc|]. split; [|split; [exact Hi|lia]].
+        apply (rep_transfer m1 m5 b k x R); [apply Hb5; assumption|].
+        intros bh Hp Hbh Hne. destruct (Hdh bh Hp) as [Hh1' Hh2']. apply Hb5; [exact Hbh|exact Hh2'|].
+        intros [[b0 k0] x0] E. cbn [fst]. destruct h0 as [[[bl0 blk0] lb0]|]; cbn [hbump] in E; [|discriminate].
+        injection E as <- _ _. intro E. apply Hh1'. subst bh. left; reflexivity. }
+  (* the two cases of slot 0 *)
+  destruct (cq_hp hp) as [|h0 hr] eqn:Ehp.
+  { exfalso. pose proof (Forall2_len _ _ _ Hh1) as E. rewrite Hl in E. discriminate E. }
+  assert (Hx0 : slot_heap (B + 1) m1 (nths t 0) h0).
+  { clear Hfin Hscan. destruct t as [|c0 trest]; [discriminate Hl|]. inversion Hh1 as [|? ? ? ? Hx Hr]. exact Hx. }
+  destruct h0 as [[[bl0 blk0] lb0]|]; cbn [slot_heap] in Hx0.
+  - destruct Hx0 as (Hc0 & R0 & I0 & U0). pose proof (rep_lt _ _ _ _ R0) as Hlt0.
+    destruct Hsep1 as (Hn1 & Hr1 & Hs1). cbn [hblocks] in Hr1.
+    assert (Hnin0 : ~ In bl0 [G_bufs; G_xrow; G_xoff; G_xtop; G_xleft; G_xtd]).
+    { intro Hin. apply (Hr1 bl0 (or_introl eq_refl)). unfold RES. cbn in Hin |- *. tauto. }
+    assert (Hhist0 : nth_error blk0 L_hist <> Some (VPtr G_bufs 0)).
+    { intro E. destruct (Hs1 bl0 blk0 lb0 G_bufs (or_introl eq_refl) E) as [_ H2]. apply H2. unfold RES; cbn; tauto. }
+    set (blk0' := upd blk0 L_useq (VInt (useq lb0 + 1))).
+    set (mA := upd (upd (m1 ++ [repeat VUndef 41]) G_bufs (tab_cells t1)) bl0 blk0').
+    set (m5 := set_globs (upd (upd mA n (slot_cells sx)) G_bufs (tab_cells t2)) (cs_row sx) (cs_off sx) (cs_top sx) (cs_left sx) (cs_td sx)).
+    destruct (Hreg (path_arg (cs_path sx)) m5) as (u & m' & Hput).
+    destruct (tr_bufs_switch_bump ext m1 t r o tp l td j bl0 blk0 lb0 u m' d fuel Hm1 Ht Hg1 Ir Io Itp Il Itd Hj Hc0 R0 I0 ltac:(lia) Hnin0 Hhist0 Isx Psx Hput) as [Hsw R0'].
+    assert (Hl0 : length (m1 ++ [repeat VUndef 41]) = S n) by (rewrite app_length; cbn [length]; lia).
+    assert (Hgb : (G_bufs < n)%nat) by (apply Hgl; cbn; tauto).
+    assert (Hl0' : length (upd (m1 ++ [repeat VUndef 41]) G_bufs (tab_cells t1)) = S n) by (rewrite upd_length; lia).
+    assert (HlA : length mA = S n) by (unfold mA; rewrite upd_length; fold n in Hlt0; lia).
+    apply (Hfin mA (Some (bl0, bumped blk0 lb0, UndoDefs.bump lb0)) u m' HlA).
+    + intros b Hb' Hnb Hn0. unfold mA. rewrite nth_error_upd_ne; [|apply (Hn0 _ _ _ eq_refl)|lia].
+      rewrite nth_error_upd_ne; [|exact Hnb|lia]. apply nth_error_app1. exact Hb'.
+    + intros bl blk lb E. injection E as <- <- <-. split; [|split; [|split; [|split; [cbn [UndoDefs.bump useq]; lia|exact Hc0]]]].
+      * unfold mA. apply nth_error_upd_same. fold n in Hlt0. lia.
+      * destruct (tr_lbuf_modified m1 bl0 blk0 lb0 0 0 R0 I0 ltac:(lia)) as [_ R']. exact R'.
+      * destruct I0 as (Hu1 & Hz & Hla0 & Hs0 & Hcu & Hn0). unfold lbuf_ints, i32 in *. cbn [UndoDefs.bump useq hist hist_u useq_zero useq_last]. repeat split; try tauto; lia.
+    + discriminate.
+    + reflexivity.
+    + exact Hput.
+    + exact Hsw.
+  - set (mA := upd (m1 ++ [repeat VUndef 41]) G_bufs (tab_cells t1)).
+    set (m5 := set_globs (upd (upd mA n (slot_cells sx)) G_bufs (tab_cells t2)) (cs_row sx) (cs_off sx) (cs_top sx) (cs_left sx) (cs_td sx)).
+    destruct (Hreg (path_arg (cs_path sx)) m5) as (u & m' & Hput).
+    assert (Hl0 : length (m1 ++ [repeat VUndef 41]) = S n) by (rewrite app_length; cbn [length]; lia).
+    assert (Hgb : (G_bufs < n)%nat) by (apply Hgl; cbn; tauto).
+    assert (HlA : length mA = S n) by (unfold mA; rewrite upd_length; lia).
+    assert (Hsw : callx ext cprog fuel (S (S (S d))) F_bufs_switch [VInt (Z.of_nat j)] m1 = Ok (VUndef, m')).
+    { apply (tr_bufs_switch ext m1 t r o tp l td j mA u m' d fuel Hm1 Ht Hg1 Ir Io Itp Il Itd Hj); try assumption.
+      - rewrite Hx0. left; reflexivity.
+      - unfold bump_call. rewrite Hx0. cbn [is_null]. reflexivity.
+      - reflexivity.
+      - intros b _. reflexivity. }
+    apply (Hfin mA None u m' HlA).
+    + intros b Hb' Hnb _. unfold mA. rewrite nth_error_upd_ne; [|exact Hnb|lia]. apply nth_error_app1. exact Hb'.
+    + discriminate.
+    + intros _. exact Hx0.
+    + reflexivity.
+    + exact Hput.
+    + exact Hsw.
+Qed.
+Print Assumptions tr_ec_quit_rotates.
